@@ -135,6 +135,46 @@ func (l *cliListen) Recv() (*signaling.ListenResponse, error) {
 }
 func (l *cliListen) RecvTo(*signaling.ListenResponse) error { <-l.ctx.Done(); return context.Canceled }
 
+// cliListenLive is a Listen client stream fed by the relay's real Listen handler (bridge).
+type cliListenLive struct {
+	ctx    context.Context
+	cancel context.CancelFunc
+	ch     chan *signaling.ListenResponse
+}
+
+func newCliListenLive(ctx context.Context) *cliListenLive {
+	cctx, cancel := context.WithCancel(ctx)
+	return &cliListenLive{ctx: cctx, cancel: cancel, ch: make(chan *signaling.ListenResponse, 256)}
+}
+
+func (l *cliListenLive) Context() context.Context     { return l.ctx }
+func (l *cliListenLive) MsgSend(m srpc.Message) error { return nil }
+func (l *cliListenLive) MsgRecv(m srpc.Message) error {
+	select {
+	case r := <-l.ch:
+		if r == nil {
+			return errors.New("verif: relay stream failed")
+		}
+		b, err := r.MarshalVT()
+		if err != nil {
+			return err
+		}
+		return m.(*signaling.ListenResponse).UnmarshalVT(b)
+	case <-l.ctx.Done():
+		return context.Canceled
+	}
+}
+func (l *cliListenLive) CloseSend() error { return nil }
+func (l *cliListenLive) Close() error     { l.cancel(); return nil }
+func (l *cliListenLive) Recv() (*signaling.ListenResponse, error) {
+	m := &signaling.ListenResponse{}
+	if err := l.MsgRecv(m); err != nil {
+		return nil, err
+	}
+	return m, nil
+}
+func (l *cliListenLive) RecvTo(m *signaling.ListenResponse) error { return l.MsgRecv(m) }
+
 // scriptRelay is a (possibly malicious) relay scripted by the harness.
 type scriptRelay struct {
 	sessCh chan *cliSession
